@@ -217,6 +217,7 @@ class PyQuoter:
         ctx.functions.update([self.QUAL, "_quoting_py._Quoter.__init__"])
         self.sites = []           # dicts: cls, event, ...
         self.win_starts = []      # events that start an escape window
+        self.fast_returns = []    # (node, [pattern tests]) of identity returns justified by a stored pattern
         self._locate()
 
     # -- structure -------------------------------------------------------------------------
@@ -740,12 +741,124 @@ class PyQuoter:
             elif v == ("param", "val"):
                 ok = any(k[0] == "cmp" and k[1] == "Eq" and fv and ("param", "val") in (k[2], k[3]) and
                          any(self._is_decoded_acc(x) for x in (k[2], k[3])) for k, fv in s.facts.items())
+                if not ok:
+                    # ... or a pattern stored by the constructor matched the whole argument (an "all characters are literal"
+                    # fast path): judged per configuration by fast_paths(), once the literal sets are known
+                    cands = [k for k, fv in s.facts.items() if fv is True and self._pattern_test(k)]
+                    if cands:
+                        self.fast_returns.append((node, cands))
+                        continue
                 ctx.ob(rule, self.QUAL, "return val", ok, "the argument is returned unchanged without comparing it with "
                        "the quoted output", w, sample="decoded output == val")
             else:
                 ok = self._is_decoded_acc(v) and v[2] and v[2][0] == ("const", "ascii")
                 ctx.ob(rule, self.QUAL, f"return {show(v)}", ok, "result is not the ASCII-decoded output buffer", w,
                        sample="acc.decode('ascii')")
+
+    # -- pattern-justified identity returns --------------------------------------------------------
+    _MATCHERS = ("match", "fullmatch", "search")
+
+    def _pattern_test(self, k):
+        """`self.X(val)` / `self.X.fullmatch(val)`: a pattern object (or bound matcher) kept by the constructor, applied to the argument."""
+        if k[0] != "call" or k[2] != (("param", "val"),) or k[3]:
+            return False
+        f = k[1]
+        me = ("param", "self")
+        return (f[0] == "attr" and f[1] == me) or (f[0] == "attr" and f[2] in self._MATCHERS and f[1][0] == "attr" and f[1][1] == me)
+
+    def fast_paths(self, cfgs, policies):
+        """EM-PYQ-RETURN for identity returns under `<stored pattern> matched the argument`: for every configuration in use the
+        pattern, folded from the constructor, must be one character class repeated over the WHOLE text (`fullmatch`, or `match`
+        closed by \\Z - `$` also matches before a final newline) and the class must lie inside the characters this configuration
+        copies literally ('%' and, under qs, ' ' never are)."""
+        import re._parser as sre
+        import re._constants as sc
+        ctx = self.ctx
+        rule = "EM-PYQ-RETURN"
+        if not self.fast_returns:
+            return
+        init = self.model.func("_quoting_py._Quoter.__init__")
+        try:
+            ri = analyze(self.model, init, merge=False)
+        except AnalysisError:
+            ri = analyze(self.model, init)
+        me = ("param", "self")
+        for node, cands in self.fast_returns:
+            problems = []
+            judged = 0
+            for name, (cls, cfg) in sorted(cfgs.items()):
+                if cls != "_Quoter":
+                    continue
+                pl = {("param", p): v for p, v in cfg.items()}
+                fold = Folder(self.model, pl)
+                ok_cfg = False
+                for k in cands:
+                    f_ = k[1]
+                    attr, how = (f_[2], None) if f_[1] == me else (f_[1][2], f_[2])
+                    # what the constructor stored under that attribute on the path this configuration takes
+                    stored = None
+                    for st in list(ri.falls) + [s_ for s_, _v, _n in ri.returns]:
+                        try:
+                            if not all(bool(fold.fold(q)) == v for q, v in st.facts.items()):
+                                continue
+                        except CannotFold:
+                            continue
+                        stored = st.heap.get((me, attr))
+                    if stored is None:
+                        raise AnalysisError(f"{self.QUAL}: self.{attr} is tested but the constructor does not store it (unknown idiom)")
+                    if stored[0] == "attr" and stored[2] in self._MATCHERS:
+                        how, stored = stored[2], stored[1]
+                    if not (stored[0] == "call" and stored[1][-1] == "compile" and stored[2]) or how is None:
+                        raise AnalysisError(f"{self.QUAL}: self.{attr} = {show(stored)[:50]} is not a compiled pattern / bound matcher (unknown idiom)")
+                    pat = need(lambda: fold.fold(stored[2][0]), f"pattern of self.{attr} for {name}")
+                    if isinstance(pat, bytes) or not isinstance(pat, str):
+                        raise AnalysisError(f"{self.QUAL}: pattern of self.{attr} is not text (unknown idiom)")
+                    try:
+                        items = list(sre.parse(pat))
+                    except Exception as ex:
+                        raise AnalysisError(f"{self.QUAL}: pattern {pat!r} does not parse: {ex}")
+                    closed = how == "fullmatch"
+                    if items and items[-1][0] == sc.AT:
+                        at = items.pop()[1]
+                        if at == sc.AT_END_STRING:
+                            closed = closed or how == "match"
+                        elif at == sc.AT_END and how != "fullmatch":
+                            problems.append(f"{name}: `{how}` with `$` also matches before a final newline - 'text\\n' takes the shortcut "
+                                            "and is returned with its raw line feed")
+                            continue
+                    if items and items[0][0] == sc.AT and items[0][1] in (sc.AT_BEGINNING, sc.AT_BEGINNING_STRING):
+                        items.pop(0)
+                    elif how == "search":
+                        closed = False
+                    if not closed:
+                        problems.append(f"{name}: the pattern is not anchored at the end of the text ({how}, {pat[-12:]!r})")
+                        continue
+                    if not (len(items) == 1 and items[0][0] in (sc.MAX_REPEAT, sc.MIN_REPEAT) and len(items[0][1][2]) == 1 and
+                            items[0][1][2][0][0] in (sc.IN, sc.LITERAL)):
+                        raise AnalysisError(f"{self.QUAL}: pattern {pat!r} is not one repeated character class (unknown idiom)")
+                    body = items[0][1][2][0]
+                    chars = set()
+                    members = [body] if body[0] == sc.LITERAL else body[1]
+                    for op, arg in members:
+                        if op == sc.LITERAL:
+                            chars.add(chr(arg))
+                        elif op == sc.RANGE:
+                            chars.update(chr(c) for c in range(arg[0], arg[1] + 1))
+                        else:
+                            raise AnalysisError(f"{self.QUAL}: character class member {op} in {pat!r} (unknown idiom)")
+                    lit = set(policies[name]["literal"])
+                    extra = sorted(chars - lit)
+                    if extra:
+                        problems.append(f"{name}: the class lets {''.join(extra)!r} through although this configuration does not copy "
+                                        "them literally")
+                        continue
+                    ok_cfg = True
+                judged += 1
+            ctx.instance(rule)
+            ctx.ob(rule, self.QUAL, "return val (pattern fast path)", not problems,
+                   "the argument is returned unchanged when a stored pattern matches, but that does not mean every character is one "
+                   "the quoter would copy: " + "; ".join(problems[:3]), where(self.fi, node),
+                   sample=f"whole-text match of a class inside the literal set, for {judged} configuration(s)")
 
     def _is_decoded_acc(self, v):
         if v[0] == "call" and v[1][0] == "attr" and v[1][2] == "decode":
